@@ -133,13 +133,47 @@ pub fn test_bytes(b: &[u8], texts: &[String], trailing: &[u8], full_faults: bool
     }
     // --- foreign headers
     for i in 0..MODEL_MAGIC.len() {
-        for delta in [1u8, 0x20, 0x80] {
-            let mut x = joined.clone();
-            x[i] ^= delta;
-            ensure!(Model::read(x.as_slice()).is_err(), "read accepts a header with byte {i} changed");
-            ensure!(Model::read_slice(&x).is_err(), "read_slice accepts a header with byte {i} changed");
+        // every other value of every header byte
+        for v in 0..=255u8 {
+            if v == MODEL_MAGIC[i] {
+                continue;
+            }
+            joined[i] = v;
+            let (r1, r2) = (Model::read(joined.as_slice()).is_err(), Model::read_slice(&joined).is_err());
+            joined[i] = MODEL_MAGIC[i];
+            ensure!(r1, "read accepts a header with byte {i} changed to {v:#04x}");
+            ensure!(r2, "read_slice accepts a header with byte {i} changed to {v:#04x}");
             HEADERS.fetch_add(2, Ordering::Relaxed);
         }
+    }
+    // textual variants of the header line: other line ends, padding, case, other versions
+    let line = &MODEL_MAGIC[..MODEL_MAGIC.len() - 1];
+    let mut variants: Vec<Vec<u8>> = vec![];
+    for tail in [&b"\r\n"[..], b"\r", b" \n", b"\t\n", b"\n\n", b"", b"\0", b" ", b"\x0c\n"] {
+        variants.push([line, tail].concat());
+    }
+    variants.push([&b" "[..], MODEL_MAGIC].concat());
+    variants.push([&b"\n"[..], MODEL_MAGIC].concat());
+    variants.push([&b"\xef\xbb\xbf"[..], MODEL_MAGIC].concat());
+    variants.push(MODEL_MAGIC.to_ascii_lowercase());
+    variants.push(MODEL_MAGIC.to_ascii_uppercase());
+    let text = String::from_utf8_lossy(MODEL_MAGIC).to_string();
+    for v in ["0.5.1", "0.4.5", "0.5", "0.5.00", "0.5.0.0", "1.5.0", "0.6.0", "v0.5.0", "0.5.0-rc1", "0,5,0"] {
+        variants.push(text.replace("0.5.0", v).into_bytes());
+    }
+    variants.push(text.replace(' ', "  ").into_bytes());
+    variants.push(text.replace(' ', "\t").into_bytes());
+    variants.push(text.replace(' ', "_").into_bytes());
+    variants.push(text.replace(' ', "").into_bytes());
+    for hv in variants {
+        // (a variant that begins with the genuine header is a damaged body, not a foreign header)
+        if hv.starts_with(MODEL_MAGIC) {
+            continue;
+        }
+        let x = [hv.as_slice(), &b[MODEL_MAGIC.len()..]].concat();
+        ensure!(Model::read(x.as_slice()).is_err(), "read accepts the header {:?}", String::from_utf8_lossy(&hv));
+        ensure!(Model::read_slice(&x).is_err(), "read_slice accepts the header {:?}", String::from_utf8_lossy(&hv));
+        HEADERS.fetch_add(2, Ordering::Relaxed);
     }
     for cut in [1usize, 5, 24] {
         // shorter first line / longer first line
@@ -221,7 +255,7 @@ fn edge_cases() -> Vec<FileCase> {
         ..ModelSpec::default()
     };
     // a file of a few hundred KiB: thousands of tag models (strided truncation / faults)
-    let big = crate::checks::c14::large_model(&crate::checks::c14::LargeCase { n_tag_models: 5000, n_char_ngrams: 300, n_words: 40 }).spec;
+    let big = crate::checks::c14::large_model(&crate::checks::c14::LargeCase { n_tag_models: 5000, n_char_ngrams: 300, n_words: 40, n_long_words: 0 }).spec;
     [empty, dict_only, wide, big]
         .into_iter()
         .map(|spec| FileCase { spec, texts: texts.clone(), trailing: vec![1, 2, 3] })
@@ -298,7 +332,7 @@ at this size); guards against limits that only large production models reach",
             Ok(Info::new(true))
         },
     );
-    let n = rep.n(1500, 15000);
+    let n = rep.n(1500, 60000);
     rep.run_prop(
         "files",
         "generated model files (all nested types on the wire, with/without tag models, empty \
